@@ -227,8 +227,8 @@ func ardop.(*TNC).runControlLoop$1() ()
   at mapupdate requires heard-only-from-a-well-formed-id-frame: err == nil
   call ardop.(*broadcaster).Send requires every-command-is-broadcast: same($1.cmd, msg.cmd)
   # a data frame that follows a CONNECTED report directly must not be discarded: the link has to
-  # be marked connected before the next frame is taken.  (KNOWN FINDING: it is not - the listener
-  # and the dialler set tnc.connected from their own goroutines after they got the broadcast.)
+  # be marked connected before the next frame is taken (defect 31, fixed: it used to be set by the
+  # listener / dialler goroutine after the broadcast)
   call ardop.(*broadcaster).Send set gLastWasConnected := $1.cmd == cmdConnected
   loop 0 invariant connected-before-the-next-frame: gLastWasConnected ==> tnc.connected
 
@@ -325,6 +325,7 @@ func ardop.(*TNC).eof(tnc) ()
   call ardop.(*tncConn).signalClosed requires the-live-connection: $0 == old(tnc.data) && $0 != nil
   ensures link-down: old(tnc.data) != nil ==> !tnc.connected && tnc.data == nil
   ensures fresh-inbound-queue: old(tnc.data) != nil ==> tnc.dataIn != nil
-  ensures untouched-without-a-connection: old(tnc.data) == nil ==> tnc.connected == old(tnc.connected) && tnc.dataIn == old(tnc.dataIn)
+  ensures always-marked-down: !tnc.connected
+  ensures queue-untouched-without-a-connection: old(tnc.data) == nil ==> tnc.dataIn == old(tnc.dataIn)
 
 @*/
